@@ -155,7 +155,7 @@ PLAN = {
         "rule": "as C02; the mmap/munmap ledger is judged after every call and at every scope exit; plus the cycles family: 200 to 100000 create/install/drop cycles in one process (1-6 installs per cycle over 8 targets with repetition, refused installs, 1 in 7 cycles ending by panic), ledger judged per cycle and executable anonymous mappings compared before the first / every 4096 / after the last cycle; distinct = class tuples",
         "assumptions": [A_S, A_N],
         "parts": [s_part("S-histories", "C12", "x86_64_linux,aarch64_linux", 24000, 2400000),
-                  s_part("S-histories-windows-macos", "C12", "x86_64_windows,aarch64_windows,aarch64_macos,x86_64_macos", 800, 40000, selftest=40),
+                  s_part("S-histories-windows-macos", "C12", "x86_64_windows,aarch64_windows,aarch64_macos,x86_64_macos", 8000, 160000, selftest=40),
                   n_part("N-histories", "C12", 480, 48000),
                   n_part("N-cycles", "C12", 16, 128, selftest=4, extra_args=["--family", "cycles"])],
     },
